@@ -1,7 +1,12 @@
 package main
 
 import (
+	"bytes"
+	stdpkix "crypto/x509/pkix"
+	stdasn1 "encoding/asn1"
+
 	"github.com/zmap/zcrypto/x509/pkix"
+	zlint "github.com/zmap/zlint/v3"
 	"github.com/zmap/zcrypto/encoding/asn1"
 	"fmt"
 	"net/url"
@@ -149,6 +154,54 @@ func init() {
 				s := runCertLint("e_empty_sct_list", c)
 				out.Add("sct", Case{Coq: fmt.Sprintf("(%s, %s)", cqBytes(string(o)), cqZ(int64(s))), Tag: fmt.Sprint(s), Desc: map[string]interface{}{"octets": hexs(o), "status": s}})
 			}
+		}
+		// ---- the same lint through real certificates: SCT lists with one or two well-formed entries whose outer two-octet
+		// length is right, understates or overstates the data by 1..3 (the certificate parser walks the entries and does
+		// not look at the outer length), plus every short value above that the parser accepts
+		{
+			sct := func(sigLen int) []byte {
+				e := []byte{0}                                  // v1
+				e = append(e, bytes.Repeat([]byte{0x11}, 32)...) // log id
+				e = append(e, 0, 0, 1, 0x8a, 0, 0, 0, 0)         // timestamp
+				e = append(e, 0, 0)                              // no extensions
+				e = append(e, 4, 3, byte(sigLen>>8), byte(sigLen))
+				e = append(e, bytes.Repeat([]byte{0x30}, sigLen)...)
+				return append([]byte{byte(len(e) >> 8), byte(len(e))}, e...)
+			}
+			var vals [][]byte
+			for _, inner := range [][]byte{sct(8), append(sct(8), sct(70)...), {}} {
+				for _, delta := range []int{-3, -2, -1, 0, 1, 2, 3, 255} {
+					n := len(inner) + delta
+					if n < 0 {
+						continue
+					}
+					vals = append(vals, append([]byte{byte(n >> 8), byte(n)}, inner...))
+				}
+			}
+			vals = append(vals, allStrings([]byte{0x00, 0x01, 0xff}, 3)...)
+			accepted := 0
+			for _, o := range vals {
+				t := leafTemplate()
+				t.ExtraExtensions = append(t.ExtraExtensions, stdpkix.Extension{Id: stdasn1.ObjectIdentifier{1, 3, 6, 1, 4, 1, 11129, 2, 4, 2}, Value: encTLV(0x04, o)})
+				der, c, err := issue(t, nil)
+				if err != nil {
+					continue
+				}
+				accepted++
+				func() {
+					defer func() {
+						if pv := recover(); pv != nil {
+							out.Violate("C02|panic-escapes:sct", fmt.Sprintf("LintCertificate panicked on a certificate whose SCT list is %x: %v", o, pv), map[string]interface{}{"der": hexs(der)}, nil, nil)
+						}
+					}()
+					if m := panicMarkers(zlint.LintCertificate(c)); len(m) > 0 {
+						out.Violate("C02|panicked:sct", fmt.Sprintf("SCT list %x: %s", o, m[0]), map[string]interface{}{"der": hexs(der), "sct_list": hexs(o)}, nil, nil)
+					}
+				}()
+				s := runCertLint("e_empty_sct_list", c)
+				out.Add("sct", Case{Coq: fmt.Sprintf("(%s, %s)", cqBytes(string(o)), cqZ(int64(s))), Tag: fmt.Sprint(s), Desc: map[string]interface{}{"octets": hexs(o), "status": s, "through": "certificate"}})
+			}
+			out.Stats["sct_certificates_accepted"] = accepted
 		}
 		// ---- util.GetHost
 		{
